@@ -576,7 +576,7 @@ func init() {
 					mods = map[string]string{"main": c05Importer, "m": text}
 					role = "imported-module"
 				}
-				cas := fmt.Sprintf("nesting family %s, depth %d, as %s: %s", fam.name, depth, role, firstN(text, 160))
+				cas := fmt.Sprintf("nesting family %s, depth %d, as %s: %s", fam.name, depth, role, feFirstN(text, 160))
 				if v := guardRun("analyze", mods, probeTimeoutBig); v.Fatal {
 					r.Outcome("fatal")
 					r.Distinct(v.Class)
